@@ -136,7 +136,9 @@ func runC01(e *core.Env) error {
 				}
 				switch {
 				case op < 3:
-					w.node.With(func(c *simnode.Chain) { c.Grow(1+rr.Intn(3), simnode.GenOpts{Salt: chain.Blocks[0].Time, MakeTx: transferMakeTx}) })
+					w.node.With(func(c *simnode.Chain) {
+						c.Grow(1+rr.Intn(3), simnode.GenOpts{Salt: chain.Blocks[0].Time, MakeTx: transferMakeTx})
+					})
 					w.tags["grow"]++
 					continue
 				default:
